@@ -524,6 +524,7 @@ def normalize_model_rec(r):
     r.setdefault("covlen", [0, 1])     # [0, 1] = length coverage not requested
     r.setdefault("elen", [])           # edge lengths parallel to edges (NONE = attribute absent), [] = no lengths
     r.setdefault("nlen", [])           # node lengths parallel to nodes (node mode), same convention
+    r.setdefault("lenattr", False)     # length_attr passed for its own sake (path-length factors)
     r.setdefault("cons_kind", "edge")
     r.setdefault("opt", {})
     r.setdefault("faults", {})
